@@ -1427,6 +1427,164 @@ def _register_values():
 _register_values()
 
 
+# ------------------------------------------------------------------------------------------ meshes from the real order elevation (O5)
+SIMPLEX_FAMILY = ('structured_2x2', 'structured_3x3', 'structured_3x3_isolated_node_at_2', 'structured_3x2_isolated_node_last')
+_ELEVATED = {}
+
+
+def simplex_mesh(kind):
+    """a small real simplex mesh (real Mesh constructors); the isolated-node members carry one coordinate row that no element
+    references (in the middle of the node list / at its end), connectivity shifted accordingly"""
+    import jax.numpy as jnp
+    from optimism import Mesh
+    nx, ny = {'structured_2x2': (2, 2), 'structured_3x3': (3, 3), 'structured_3x3_isolated_node_at_2': (3, 3), 'structured_3x2_isolated_node_last': (3, 2)}[kind]
+    m = Mesh.construct_structured_mesh(nx, ny, [0., 1.], [0., 1.])
+    if 'isolated' not in kind:
+        return m
+    coords, conns = onp.asarray(m.coords), onp.asarray(m.conns)
+    at = 2 if kind.endswith('at_2') else coords.shape[0]
+    coords = onp.insert(coords, at, onp.array([0.37, 0.61]), axis=0)
+    conns = onp.where(conns >= at, conns + 1, conns)
+    return Mesh.construct_mesh_from_basic_data(jnp.array(coords), jnp.array(conns), {'block_0': jnp.arange(conns.shape[0])})
+
+
+def elevated_mesh(kind, order):
+    """the REAL Mesh.create_higher_order_mesh_from_simplex_mesh on a member of the family (cached per process: the ids are
+    concrete and the same in the symbolic run and in a replay)"""
+    if (kind, order) not in _ELEVATED:
+        from optimism import Mesh
+        _ELEVATED[(kind, order)] = Mesh.create_higher_order_mesh_from_simplex_mesh(simplex_mesh(kind), order)
+    return _ELEVATED[(kind, order)]
+
+
+def make_elevated_harness(order, family=SIMPLEX_FAMILY):
+    """the real writer on the mesh the real elevation produces (concrete ids), with SYMBOLIC coordinates and a symbolic nodal
+    field: what a cell's ids point at in the file is what was supplied for the mesh nodes that cell refers to"""
+    def fn(ex):
+        del _TOKENS[:]
+        symbolic = ex.symbolic
+        kind = choose(ex, 'simplexMesh_index', list(family))
+        M = elevated_mesh(kind, order)
+        conn = onp.asarray(M.conns).astype(onp.int64)
+        ordinals = onp.asarray(M.simplexNodesOrdinals).astype(onp.int64)
+        nNodes, T = int(M.coords.shape[0]), int(conn.shape[0])
+        pe = M.parentElement
+        deg = int(pe.degree)
+        elc = _quadratic_triangle_order(pe) if deg == 2 else [int(v) for v in onp.asarray(pe.vertexNodes)]
+        x = _draw(ex, 'x', (nNodes, 2))
+        sfield = _draw(ex, 's', (nNodes,))
+        ex.note('simplex mesh %s elevated to order %d by the real Mesh.create_higher_order_mesh_from_simplex_mesh: %d nodes, %d elements, %d simplexNodesOrdinals' % (kind, order, nNodes, T, ordinals.size))
+        # ---- the link the writer relies on (it writes coords[simplexNodesOrdinals] but does not renumber connectivity)
+        used = sorted({int(conn[e, j]) for e in range(T) for j in elc})
+        if deg != 2:
+            ex.goal('elevated_mesh_ordinals_are_identity_on_the_vertex_ids_cells_use', Holds(all(k < ordinals.size and int(ordinals[k]) == k for k in used)),
+                    info='vertex ids used by the elements %s; simplexNodesOrdinals %s' % (used, ordinals.tolist()))
+
+        def run(backend):
+            mod = px.load_module(REL)
+            files, tmpdir = [], None
+            if backend == 'object':
+                mod.np = ValNP()
+
+                def open_shim(name, mode='r', *a, **k):
+                    files.append(RecFile(name, mode))
+                    return files[-1]
+                mod.open = open_shim
+                mesh = SymMesh.__new__(SymMesh)
+                mesh.coords, mesh.conns, mesh.simplexNodesOrdinals, mesh.parentElement = x, conn, ordinals, pe
+                base, conv = 'c20_elevated', (lambda a: a)
+            else:
+                if backend == 'jax':
+                    import jax.numpy as xp
+                else:
+                    xp = onp
+                mesh = M._replace(coords=xp.array(x), conns=xp.array(conn), simplexNodesOrdinals=xp.array(ordinals))
+                tmpdir = tempfile.mkdtemp(prefix='c20_replay_')
+                base, conv = os.path.join(tmpdir, 'out'), (lambda a: xp.array(a))
+            try:
+                with _pywarnings.catch_warnings():
+                    _pywarnings.simplefilter('ignore')
+                    W = mod.VTKWriter(mesh, baseFileName=base)
+                    W.add_nodal_field('s', conv(sfield), mod.VTKFieldType.SCALARS)
+                    W.write()
+                    if backend == 'object':
+                        text = files[-1].text()
+                    else:
+                        with open(base + '.vtk') as fh:
+                            text = fh.read()
+            except CODE_ERRORS as e:
+                ex.goal(DEFINED, Holds(False), info='%s: %s (arrays: %s)' % (type(e).__name__, e, backend))
+                return
+            finally:
+                if tmpdir:
+                    shutil.rmtree(tmpdir, ignore_errors=True)
+            ex.goal(DEFINED, Holds(True))
+            header, secs = read_legacy_vtk(text)
+            kws = [q['kw'] for q in secs]
+            okstruct = kws == ['POINTS', 'CELLS', 'CELL_TYPES', 'POINT_DATA', 'SCALARS', 'LOOKUP_TABLE'] and all(_is_intlike(secs[i]['args'][0]) and not sym.isz(secs[i]['args'][0]) for i in (0, 1, 3))
+            ex.goal('sections_in_legacy_order', Holds(okstruct), info=kws)
+            if not okstruct:
+                return
+            pts, cells, sdat = secs[0].get('lines', []), secs[1].get('lines', []), secs[5].get('lines', [])
+            npts = secs[0]['args'][0]
+            ex.goal('points_declared_eq_rows_written', Eq(npts, len(pts)), info='POINTS %s, %d rows' % (npts, len(pts)))
+            ex.goal('point_data_declared_eq_points_declared', Eq(secs[3]['args'][0], npts))
+            ex.goal('point_array_records_eq_points_declared', Eq(len(sdat), npts))
+            ids = [[v for v in row[1:]] for row in cells]
+            okids = len(cells) == T and all(len(r) == len(elc) and all(isinstance(v, int) and not isinstance(v, bool) for v in r) for r in ids)
+            ex.goal('cells_rows_hold_one_integer_id_per_vertex', Holds(okids), info=ids[:4])
+            if not okids:
+                return
+            bad = [(e, v) for e, r in enumerate(ids) for v in r if not 0 <= v < len(pts)]
+            ex.goal('cells_connectivity_within_points', Holds(not bad), info='POINTS %s (%d rows); (element, id) pairs that refer to no written point: %s' % (npts, len(pts), bad[:6]))
+            # ---- what the ids point at: coordinates and field value of the mesh node the element refers to
+            gotx, wantx, gots, wants = [], [], [], []
+            for e in range(T):
+                for slot, j in enumerate(elc):
+                    fid, node = ids[e][slot], int(conn[e, j])
+                    if 0 <= fid < len(pts) and len(pts[fid]) == 3 and fid < len(sdat) and len(sdat[fid]) == 1:
+                        gotx.append(pts[fid])
+                        wantx.append([x[node, 0], x[node, 1], 0.0])
+                        gots.append(sdat[fid])
+                        wants.append([sfield[node]])
+            # ids that refer to no written point are reported by cells_connectivity_within_points; the others are compared entry by entry
+            _placed(ex, 'cell_vertex_coordinates_round_trip', gotx, wantx, 'coordinates of the points the CELLS ids refer to vs coordinates supplied for the mesh nodes of the elements')
+            _placed(ex, 'cell_vertex_field_values_round_trip', gots, wants, 'nodal scalar at the points the CELLS ids refer to vs the values supplied for the mesh nodes of the elements')
+
+        for backend in (('object',) if symbolic else ('jax', 'numpy')):
+            run(backend)
+    return fn
+
+
+ELEVATED_GOALS = ['sections_in_legacy_order', 'points_declared_eq_rows_written', 'point_data_declared_eq_points_declared', 'point_array_records_eq_points_declared',
+                  'cells_rows_hold_one_integer_id_per_vertex', 'cells_connectivity_within_points', 'cell_vertex_coordinates_round_trip', 'cell_vertex_field_values_round_trip', DEFINED]
+
+
+def _register_elevated():
+    for order, tiers in ((2, ('quick', 'thorough')), (3, ('quick', 'thorough')), (4, ('thorough',))):
+        def ob(h, order=order):
+            """the writer on meshes produced by the REAL Mesh.create_higher_order_mesh_from_simplex_mesh (concrete ids) for a family of
+            simplex meshes including ones with a node no element references, with symbolic coordinates and a symbolic nodal field:
+            every id in CELLS refers to a written point, and the coordinates / field value found there are the ones supplied for
+            the mesh node the element refers to (the writer does not renumber, so simplexNodesOrdinals must be the identity on
+            the vertex ids in use)"""
+            from ..core import REPO
+            from optimism import Mesh
+            src = open(os.path.join(REPO, REL)).read()
+            h.encoded('optimism.VTKWriter (real source on object arrays of symbolic entries; file sha1=%s)' % hashlib.sha1(src.encode()).hexdigest()[:12],
+                      Mesh.create_higher_order_mesh_from_simplex_mesh, Mesh.create_edges, Mesh.construct_structured_mesh, Mesh.construct_mesh_from_basic_data)
+            h.bounds('simplex meshes %s elevated to order %d by the real code (ids, element count and node count concrete); all real values of every node coordinate and of a nodal scalar field' % (list(SIMPLEX_FAMILY), order))
+            h.assume_note('the elevation runs concretely (jax) on the concrete simplex mesh; its conns / simplexNodesOrdinals / parentElement are handed to the writer together with SYMBOLIC '
+                          'coordinates and field values (the writer reads coordinates only to copy them); stubs as in O3 (open recorder, np.zeros allocates object arrays)')
+            h.outside('simplex meshes outside the family (the identity-on-used-ids link is a ground fact per mesh); coordinates produced by the elevation (C13)')
+            px.run_px(h, 'elevated', make_elevated_harness(order), cap=20, order=('core',), feas_ms=300,
+                      expect_goals=ELEVATED_GOALS + (['elevated_mesh_ordinals_are_identity_on_the_vertex_ids_cells_use'] if order != 2 else []))
+        obligation(P, 'O5.real_elevated_mesh_round_trip[order %d]' % order, tiers=tiers, cap=300)(ob)
+
+
+_register_elevated()
+
+
 @obligation(P, 'O0.shape_model_agrees_with_numpy', cap=300)
 def o0(h):
     """translator validation (ground facts, not the check): on concrete sizes the shape-level numpy shim + TABLE stub give,
